@@ -2,7 +2,7 @@
 (* Trace validation of schema statements: C13 (SQLite: engine catalogue vs  *)
 (* the declared history stepped through SqliteCatalog), C14 (MySQL / PG DDL *)
 (* grammar vs declaration) and the take() half of C15 for schema builders.  *)
-EXTENDS SchemaLaw, IOUtils, TLCExt
+EXTENDS SchemaLaw, Schema, IOUtils, TLCExt
 Rec == ndJsonDeserialize(IOEnv.TRACE)
 VARIABLE l
 Init == l = 1
@@ -43,9 +43,17 @@ C15Keys(r) ==
                      THEN {} ELSE {"C15/schema_take/" \o r.history[i].stmt \o "/taken_renders_differently"})
           : i \in DOMAIN r.history }
 
+\* implementation-level model (Schema!RenderDDL): which (statement kind, backend) renderings differ from it
+Drift(r) ==
+  UNION { UNION { LET d == r.history[i]  st == r.steps[i] IN
+                  IF IsPanic(st) \/ B \notin DOMAIN st.r.r THEN {}
+                  ELSE IF IsPanic(st.r.r[B]) THEN (IF RenderDDL(B, d) = Unsup THEN {} ELSE {d.stmt \o "/" \o B \o "/panics_where_the_model_renders"})
+                  ELSE IF st.r.r[B].r = RenderDDL(B, d) THEN {} ELSE {d.stmt \o "/" \o B}
+                  : B \in {"mysql", "pg", "sqlite"} } : i \in DOMAIN r.history }
 Verdict(r) ==
   LET ks == C13From(r, 1, <<>>) \cup C14Keys(r) \cup C15Keys(r) IN
-  [id |-> r.id, keys |-> {k \in ks : ~HasChar(k, "?")}, n13 |-> Cardinality({i \in DOMAIN r.history : Supported13(r.history[i])}), nsteps |-> Len(r.history)]
+  [id |-> r.id, keys |-> {k \in ks : ~HasChar(k, "?")}, n13 |-> Cardinality({i \in DOMAIN r.history : Supported13(r.history[i])}), nsteps |-> Len(r.history),
+   drift |-> Drift(r)]
 Step == /\ l <= Len(Rec)
         /\ PrintT(<<"R", ToJson(Verdict(Rec[l]))>>)
         /\ l' = l + 1
